@@ -29,10 +29,19 @@ def digitVal (c : Char) : Nat := c.toNat - 48
 /-- Decimal digit rune of `d < 10`. -/
 def digitChar (d : Nat) : Char := Char.ofNat (48 + d)
 
-/-- Decimal digits of a natural number, most significant first (`strconv`, `%d`). -/
-def natDigits (n : Nat) : List Char :=
-  if n < 10 then [digitChar n] else natDigits (n / 10) ++ [digitChar (n % 10)]
+/-- Decimal digits of a natural number, most significant first (`strconv`, `%d`):
+the defining recursion. -/
+def natDigitsSpec (n : Nat) : List Char :=
+  if n < 10 then [digitChar n] else natDigitsSpec (n / 10) ++ [digitChar (n % 10)]
 decreasing_by omega
+
+/-- The same by structural recursion on a fuel argument (so that the kernel can evaluate it). -/
+def natDigitsFuel : Nat → Nat → List Char
+  | 0, n => [digitChar (n % 10)]
+  | fuel + 1, n => if n < 10 then [digitChar n] else natDigitsFuel fuel (n / 10) ++ [digitChar (n % 10)]
+
+/-- Decimal digits of a natural number (`natDigitsSpec`, see `natDigits_eq_spec`). -/
+def natDigits (n : Nat) : List Char := natDigitsFuel n n
 
 /-- `fmt.Sprintf("%d", i)` / `strconv.FormatInt(i, 10)`. -/
 def intDigits (i : Int) : List Char :=
